@@ -21,9 +21,9 @@ import (
 type C09OCase struct {
 	Delay    bool `json:"delay"`
 	Suppress bool `json:"suppress"`
-	Before   int  `json:"before"` // updates installed while parked, before the enable
-	Between  int  `json:"between"` // updates installed while parked, after the enable
-	After    int  `json:"after"`   // updates installed after the callback goroutine caught up
+	Before   int  `json:"before"`              // updates installed while parked, before the enable
+	Between  int  `json:"between"`             // updates installed while parked, after the enable
+	After    int  `json:"after"`               // updates installed after the callback goroutine caught up
 	ErrAfter bool `json:"err_after,omitempty"` // a source error reported after catching up
 }
 
